@@ -177,7 +177,7 @@ Proof.
     destruct (N.ltb_spec 65535 cp); cbn [length]; lia.
 Qed.
 
-Definition assert_ok (cp : N) : bool := (cp <=? 65535) || (cp <? 1114111).
+Definition assert_ok (cp : N) : bool := (cp <=? 65535) || (cp <=? 1114111).
 
 Lemma to_utf16_loop_enc cps : forall fuel out ok,
   Forall cp_ok cps -> (length cps < fuel)%nat ->
@@ -557,13 +557,13 @@ Proof.
     + destruct (65535 <? cp).
       * destruct (IH (tl s') (acc + 1 + 1)
                     ((N.land (cp - 65536) 1023 + 56320) :: (N.shiftr (cp - 65536) 10 + 55296) :: out)
-                    (ok && ((cp <=? 65535) || (cp <? 1114111))) n H)
+                    (ok && ((cp <=? 65535) || (cp <=? 1114111))) n H)
           as (us & ok' & E1 & E2).
         eexists (_ :: _ :: us), ok'. split.
         -- rewrite E1. cbn [rev]. rewrite <- !app_assoc. reflexivity.
         -- cbn [length]. lia.
       * destruct (IH (tl s') (acc + 1) (cp :: out)
-                    (ok && ((cp <=? 65535) || (cp <? 1114111))) n H)
+                    (ok && ((cp <=? 65535) || (cp <=? 1114111))) n H)
           as (us & ok' & E1 & E2).
         eexists (_ :: us), ok'. split.
         -- rewrite E1. cbn [rev]. rewrite <- !app_assoc. reflexivity.
